@@ -8,6 +8,7 @@ CONSTANTS
   MaxTime = 2
   Duration = 2
   Lease = 1
+  ImportOn = FALSE
   MaxRec = 1
   Bug = {}
   GenMode = "C06"
